@@ -65,10 +65,23 @@ def _d(h, cls, state):
     It exists to work around the fact that pickle will (normally) call __new__() with no arguments during
     deserialization. For ASTs, this does not work.
     """
-    op, args, length, variables, symbolic, annotations = state
-    return cls.__new__(
-        cls, op, args, length=length, variables=variables, symbolic=symbolic, annotations=annotations, hash=h
+    op, args, length, variables, symbolic, annotations, *inherited = state
+    # the pickled annotations are final: they must not be extended with the children's relocatable annotations again
+    # (an expression whose inherited annotations had been cleared would get them back)
+    ast = cls.__new__(
+        cls,
+        op,
+        args,
+        length=length,
+        variables=variables,
+        symbolic=symbolic,
+        annotations=annotations,
+        hash=h,
+        skip_child_annotations=True,
     )
+    if inherited:
+        ast._uneliminatable_annotations, ast._relocatable_annotations = inherited
+    return ast
 
 
 class Base:
@@ -347,7 +360,16 @@ class Base:
         return _d, (
             self._hash,
             self.__class__,
-            (self.op, self.args, self.length, self.variables, self.symbolic, self.annotations),
+            (
+                self.op,
+                self.args,
+                self.length,
+                self.variables,
+                self.symbolic,
+                self.annotations,
+                self._uneliminatable_annotations,
+                self._relocatable_annotations,
+            ),
         )
 
     def __init__(self, *args, **kwargs):
